@@ -302,6 +302,15 @@ def run(ck, facts, tier):
                  detail=cel.vfmt(got)[:400], sample="holidays: from_iter(holidays), week_mask: from_iter(mask.map(Weekday::try_from))")
     except Unsupported as e:
         ck.fail(r5, "Cal::new", "rule could not be established (%s)" % e)
+    # a date is "reported as a holiday" through Cal's membership tests (C06 R06.2), and the back-test's "business days between first and last publication"
+    # are enumerated by bus_date_range stepping with add_bus_days / the roll search (C05 R05.1, R05.5; C04 R04.1): necessary conditions of the statement
+    from rules import c06, c05, c04
+    nd_, tb_ = list(ck.not_decided), list(ck.trusted)
+    with ck.restrict({"R06.0", "R06.2"}):
+        c06.run(ck, facts, tier)
+    with ck.restrict({"R05.1", "R05.5", "R04.1", "R04.5"}):
+        c05.run(ck, facts, tier)
+    ck.not_decided[:], ck.trusted[:] = nd_, tb_
     ck.not_decided += ["whether the repository's <name>_script.py rule lists match the central banks' publications (they are the repo's statement of the rules)",
                        "holidays of tro/tyo/syd/wlg/mum produced by script-local observance functions (listed under rules_not_interpreted)"]
     ck.trusted += ["lib/holidays.py interpreter of the pandas Holiday subset (validated by reproducing every fully interpretable table exactly)", "python ast/csv"]
